@@ -599,7 +599,42 @@ def colonColor (subs : Param) : Option ColorSel :=
   | [some 2, _, some r, some g, some b] => some (.rgb r g b)
   | _ => none
 
-/-- SGR over the parameter list; `fuel` ≥ number of parameters -/
+/-- one SGR parameter `p` (with access to the following parameters `rest` for the `;` forms of 38/48/58);
+    `k` continues with the parameters that are left -/
+def sgrStep (k : List Param → Term → Term) (p : Param) (rest : List Param) (t : Term) : Term :=
+  match p with
+  | [] | [none] => k rest { t with pen := { link := t.pen.link }, penKnown := true }
+  | [some n] =>
+    if n = 38 ∨ n = 48 ∨ n = 58 then
+      match rest with
+      | [some 5] :: [some i] :: rest' =>
+        if i ≤ 255 then k rest' { t with pen := setExt t.pen n (.idx i) }
+        else k rest' (t.complain "sgr colour index out of range")
+      | [some 2] :: [some r] :: [some g] :: [some b] :: rest' =>
+        if colorOk (.rgb r g b) then k rest' { t with pen := setExt t.pen n (.rgb r g b) }
+        else k rest' (t.complain "sgr rgb component out of range")
+      | _ => t.complain "sgr malformed extended colour"
+    else if n = 0 then k rest { t with pen := { link := t.pen.link }, penKnown := true }
+    else if n = 10 ∨ n = 11 ∨ n = 12 then k rest { t with modes := { t.modes with altFont := n - 10 } }
+    else match sgrSimple t.pen n with
+      | some p' => k rest { t with pen := p' }
+      | none => k rest (t.complain "sgr unknown parameter")
+  | some n :: subs =>
+    if n = 4 then
+      match subs with
+      | [some s] => if s ≤ 5 then k rest { t with pen := { t.pen with ul := s } }
+                    else k rest (t.complain "sgr underline style out of range")
+      | _ => k rest (t.complain "sgr malformed 4:")
+    else if n = 38 ∨ n = 48 ∨ n = 58 then
+      match colonColor subs with
+      | some c => if colorOk c then k rest { t with pen := setExt t.pen n c }
+                  else k rest (t.complain "sgr colour out of range")
+      | none => k rest (t.complain "sgr malformed extended colour")
+    else k rest (t.complain "sgr unexpected sub-parameters")
+  | none :: _ => k rest (t.complain "sgr unexpected sub-parameters")
+
+/-- SGR over the parameter list; `fuel` ≥ number of parameters.  (Written out rather than through `sgrStep`:
+    this form evaluates fast in the kernel; `applySgr_step` in `Ecma48Lemmas` shows it is `sgrStep (applySgr fuel)`.) -/
 def applySgr : Nat → List Param → Term → Term
   | 0, _, t => t
   | _, [], t => t
